@@ -16,7 +16,7 @@ LEVEL_TEXT = ("Static structural proof of necessary conditions, not of the prope
               "format_error* site in the closure binds to its message function through the decorator wrapper; no "
               "issue list returned inside the validator closure is discarded. Correctness of the rule predicates "
               "themselves (valid => no error; one fault => that code) is NOT decided.")
-LEVEL_EXTRA = 'Added after the seeded evaluation: (R1.4) the delimiter scan decides on the blank-stripped token text; (R1.5) no early exit skips a string-level check. (R1.6) no first/last-element access on a possibly empty list in the validators (validation reports, it does not raise IndexError). (R1.7) every setting a validator constructor stores on the object is read somewhere (one frozen exception). (R1.8) a def-tag search over a whole annotation in the validators is recursive; R1.3 also reports an issue accumulator that is plainly re-assigned before it was read. (R1.9) tag objects are not compared with DefTagNames keys directly. (R1.10) a parameter is handed on to every repository callee that takes a parameter of the same name (11 frozen exceptions package-wide).'
+LEVEL_EXTRA = 'Added after the seeded evaluation: (R1.4) the delimiter scan decides on the blank-stripped token text; (R1.5) no early exit skips a string-level check. (R1.6) no first/last-element access on a possibly empty list in the validators (validation reports, it does not raise IndexError). (R1.7) every setting a validator constructor stores on the object is read somewhere (one frozen exception). (R1.8) a def-tag search over a whole annotation in the validators is recursive; R1.3 also reports an issue accumulator that is plainly re-assigned before it was read. (R1.9) tag objects are not compared with DefTagNames keys directly. (R1.10) a parameter is handed on to every repository callee that takes a parameter of the same name (11 frozen exceptions package-wide). (R1.11) a setting handed to one sub-validator constructor in HedValidator.__init__ is handed to every sibling constructor that takes a parameter of that name; R1.3 also reports an issue list that a loop plainly re-assigns without it having been read.'
 
 
 def signature_rule(ctx, rule, funcs, floor_sites):
@@ -215,3 +215,34 @@ def run(ctx):
     from sa.forward import check_forwarding
     nfw = check_forwarding(ctx, "R1.10", [f for f in prog.functions.values() if f.module.name.startswith(('hed.validator',))], 'e.g. placeholders allowed, error code, offsets')
     ctx.floor("R1.10", "same-named parameter sites", nfw, 1)
+
+    # ---------------- R1.11: the sub-validators are built for the same rule generation
+    ctx.rule("R1.11", "a setting handed to one sub-validator constructor in HedValidator.__init__ is handed to every sibling constructor "
+                      "that takes a parameter of that name")
+    hv11 = prog.find_class("HedValidator").methods.get("__init__")
+    if hv11 is None:
+        raise AnalysisError("anchor HedValidator.__init__ vanished")
+    ctx.saw(hv11)
+    cons11 = []
+    for c in walk_no_nested(hv11.node):
+        if isinstance(c, ast.Call):
+            r = prog.resolve_expr(c.func, hv11.module, hv11.cls, hv11)
+            init_ = r.find_method("__init__") if hasattr(r, "find_method") else None
+            if init_ is not None and r.module.name.startswith("hed.validator"):
+                params_ = [p for p in init_.params() if p != "self"]
+                given = set(k.arg for k in c.keywords if k.arg) | set(params_[:len(c.args)])
+                cons11.append((c, r, params_, given))
+    ctx.floor("R1.11", "sub-validator constructions in HedValidator.__init__", len(cons11), 3)
+    shared11 = {}
+    for c, r, params_, given in cons11:
+        for p in given:
+            shared11.setdefault(p, []).append(r.name)
+    for c, r, params_, given in cons11:
+        for p in params_:
+            if p in shared11 and p not in given:
+                ctx.violation("R1.11", hv11.qualname, c, loc(hv11, c),
+                              "%s is built without `%s`, which its sibling %s receives: the sub-validators then apply different rule "
+                              "generations (e.g. the whole-string character check falls back to the pre-8.3 ASCII rule and rejects the "
+                              "non-ASCII text that an 8.3 schema's value classes allow)" % (r.name, p, ", ".join(sorted(set(shared11[p])))))
+            elif p in shared11:
+                ctx.ok("R1.11", "%s receives %s" % (r.name, p), loc(hv11, c))
